@@ -33,6 +33,8 @@ func (g *Generator) generateStructTypeAndMethods(definition tlparser.Object, imp
 		}
 
 		if param.Type == "bitflags" {
+			// flags word is written even if no one parameter depends on it, so type needs FlagIndex()
+			containsOptionalParameters = true
 			continue
 		}
 		fields[i] = g.generateStructParameter(&param)
